@@ -1,13 +1,22 @@
 import PycsepVerif.GeneratedSrc
 import PycsepVerif.Model.BinaryBrier
+import PycsepVerif.Proofs.RealInst
 /-!
-# Source tie of C16: `_brier_score_ndarray` generated from the Python source equals the hand model (Model/BinaryBrier.lean)
+# Source tie of C16: `_brier_score_ndarray` and `binary_joint_log_likelihood_ndarray` generated from the Python source equal
+the hand model (Model/BinaryBrier.lean)
 
 Arrays are flat lists; `observations.shape` is the parameter `dims`. `poisson.cdf(0, r)` is `exp(-r)` (prelude, trusted,
 compared numerically on every run).
+
+`binary_joint_log_likelihood_ndarray` is translated with numpy.ma's semantics of masked slots (PyPrelude: every element is
+`(data, mask)`, masked slots of a result carry the first operand's data). The hand model `binaryLL` is the closed form per
+bin (`binTerm`), which drops the factors `1 *` and the terms `0 * …` of the code: the equality therefore holds over the real
+numbers (`α = ℝ`), for forecast and catalog arrays of equal size (numpy raises otherwise).
 -/
 namespace Src
 open RealOps BinaryBrier
+
+section Generic
 variable {α : Type} [RealOps α]
 
 theorem brier_score_ndarray_eq_model (forecast : List α) (obs : List Nat) (dims : List Nat) :
@@ -15,5 +24,75 @@ theorem brier_score_ndarray_eq_model (forecast : List α) (obs : List Nat) (dims
   simp only [Src.brier_score_ndarray, brier, brierCell, poisCdf0, Py.poissonCdf0, Py.rsum, Py.rsq, two,
     List.map_map, List.zipWith_map, List.map_zipWith, List.zip_eq_zipWith]
   rfl
+
+/-- `y = zeros(n); y[nonzero(catalog)[0]] = 1` is the indicator array of the active bins -/
+theorem put_nonzero_aux {β : Type} (c z : β) : ∀ (l : List Nat) (pre : List β),
+    (Py.nonzeroIdxFrom pre.length l).foldl (fun acc i => acc.set i c) (pre ++ List.replicate l.length z)
+      = pre ++ l.map (fun k => if k ≠ 0 then c else z)
+  | [], pre => by simp [Py.nonzeroIdxFrom]
+  | x :: xs, pre => by
+    have ih := put_nonzero_aux c z xs
+    by_cases hx : x = 0
+    · have := ih (pre ++ [z])
+      simp only [List.length_append, List.length_singleton, List.append_assoc, List.singleton_append] at this
+      simp [Py.nonzeroIdxFrom, hx, List.replicate_succ, this]
+    · have := ih (pre ++ [c])
+      simp only [List.length_append, List.length_singleton, List.append_assoc, List.singleton_append] at this
+      simp [Py.nonzeroIdxFrom, hx, List.replicate_succ, this]
+
+theorem indicator_eq (catalog : List Nat) (n : Int) (hn : n = (catalog.length : Int)) :
+    Py.put (Py.np_zeros n : List α) (Py.nonzeroIdx catalog) one = catalog.map (fun k => if k ≠ 0 then one else zero) := by
+  subst hn
+  have := put_nonzero_aux (one : α) zero catalog []
+  simpa [Py.put, Py.np_zeros, Py.nonzeroIdx] using this
+/-- `binary_spatial_likelihood(forecast, catalog)` (poisson_evaluations.py:257): one `binaryCell` per spatial cell, with
+    `scale = catalog.event_count / forecast.event_count`; the objects are read only through `.event_count` and
+    `.spatial_counts()` (arrays of one size). Generic over `RealOps`. -/
+theorem binary_spatial_likelihood_eq_model (nCat : Nat) (nFore : α) (sc : List α) (cnt : List Nat)
+    (h : sc.length = cnt.length) :
+    Src.binary_spatial_likelihood nCat nFore sc cnt
+      = (sc.zip cnt).map (fun p => binaryCell (div (ofNat nCat) nFore) p.1 p.2) := by
+  have hn : Py.size sc = (cnt.length : Int) := by simp [Py.size, h]
+  simp only [Src.binary_spatial_likelihood, indicator_eq cnt _ hn]
+  apply List.ext_getElem
+  · simp [h]
+  · intro i h1 h2
+    have hi : i < cnt.length := by simpa [h] using h2
+    simp only [List.getElem_zipWith, List.getElem_map, List.getElem_zip, binaryCell]
+    by_cases hc : cnt[i] = 0
+    · have : ¬ (0 < cnt[i]) := by omega
+      simp [hc]
+    · have : 0 < cnt[i] := by omega
+      simp [hc, this]
+
+/-- the model's `binarySpatialMap` in terms of the generated definition -/
+theorem binarySpatialMap_eq_src (data : List (List α)) (c : List (List Nat))
+    (h : (spatialMarginal data).length = (spatialMarginalN c).length) :
+    binarySpatialMap data c
+      = Src.binary_spatial_likelihood c.flatten.sum (RealOps.sum data.flatten) (spatialMarginal data) (spatialMarginalN c) := by
+  rw [binary_spatial_likelihood_eq_model _ _ _ _ h]; rfl
+
+end Generic
+
+/-- `binary_joint_log_likelihood_ndarray(forecast, catalog)` over ℝ is the model's `binaryLL` of the bins -/
+theorem binary_joint_log_likelihood_ndarray_eq_model (forecast : List ℝ) (catalog : List Nat)
+    (h : forecast.length = catalog.length) :
+    Src.binary_joint_log_likelihood_ndarray forecast catalog = binaryLL (forecast.zip catalog) := by
+  have hn : Py.size (Py.ma_masked_where (List.map (fun x_ => RealOps.le x_ (RealOps.zero : ℝ)) forecast) forecast)
+      = (catalog.length : Int) := by simp [Py.ma_masked_where, Py.size, h]
+  simp only [Src.binary_joint_log_likelihood_ndarray, indicator_eq catalog _ hn, binaryLL, Py.rsum]
+  congr 1
+  apply List.ext_getElem
+  · simp [Py.ma_data, Py.ma_arr_mul, Py.ma_log, Py.ma_scalar_sub, Py.ma_exp, Py.ma_neg, Py.ma_masked_where, h]
+  · intro i h1 h2
+    have hi : i < catalog.length := by simpa [h] using h2
+    simp only [Py.ma_data, Py.ma_arr_mul, Py.ma_log, Py.ma_scalar_sub, Py.ma_exp, Py.ma_neg, Py.ma_masked_where,
+      List.getElem_zipWith, List.getElem_map, List.getElem_zip, binTerm, real_le, real_one, real_zero, real_sub, real_mul,
+      real_neg, real_add, real_exp, real_log, decide_eq_true_eq, Bool.or_eq_true]
+    by_cases hc : catalog[i] = 0
+    · have : ¬ (0 < catalog[i]) := by omega
+      by_cases hr : forecast[i] ≤ 0 <;> by_cases hp : 1 - Real.exp (-forecast[i]) ≤ 0 <;> simp [hc, hr, hp]
+    · have : 0 < catalog[i] := by omega
+      by_cases hr : forecast[i] ≤ 0 <;> by_cases hp : 1 - Real.exp (-forecast[i]) ≤ 0 <;> simp [hc, hr, hp, this]
 
 end Src
